@@ -114,4 +114,7 @@ def main():
 
 
 if __name__ == "__main__":
+    from mc.core import _maybe_start_coverage
+
+    _maybe_start_coverage()
     main()
